@@ -35,6 +35,35 @@ def occurrences(b, texts):
     return occ
 
 
+def feed_back(ctx, srv, texts, changes, opened, main_uri, where):
+    """the client applies the workspace edit to its documents and notifies the server (one didChange per document,
+    edits bottom-up so that each range is valid when it is applied); the server must see sources it accepts"""
+    for uri, edits in changes.items():
+        if uri not in opened:
+            srv.open(uri, texts[uri])
+            opened.add(uri)
+        es = sorted(edits, key=lambda e: (e["range"]["start"]["line"], e["range"]["start"]["character"]), reverse=True)
+        srv.change(uri, [{"range": e["range"], "text": e["newText"]} for e in es])
+    r = srv.pos_request("textDocument/prepareRename", main_uri, 0, 0)
+    srv.drain(0.03)
+    ctx.cov["evaluations"] += 1
+    bad = {u: d for u, d in srv.diags.items() if d}
+    alive = srv.alive() and "dead" not in r
+    for uri in changes:
+        srv.change(uri, [{"text": texts[uri]}], version=3)
+    srv.pos_request("textDocument/prepareRename", main_uri, 0, 0)
+    srv.drain(0.03)
+    if not alive:
+        ctx.violation("the server dies when the client applies the rename edits and notifies it", where, "alive", "".join(srv.stderr[-3:])[:300])
+        return False
+    if bad:
+        ctx.violation("after the client applied the rename edits and notified the server, the server reports errors in sources the compiler accepts",
+                      where, "no diagnostic", json.dumps(bad)[:400])
+        return False
+    ctx.count("fed_back")
+    return True
+
+
 def check_workspace(ctx, files, tag):
     root = lspws.fresh_dir("c18_" + tag)
     lsp.write_workspace(root, files)
@@ -52,6 +81,7 @@ def check_workspace(ctx, files, tag):
     try:
         srv.initialize()
         k = 0
+        opened = set()
         for loc, s, e, kind in occurrences(b, texts):
             text = texts[loc]
             for off in sorted(set([s, e - 1])):
@@ -111,6 +141,9 @@ def check_workspace(ctx, files, tag):
                                   "same document", "different document")
                     return
                 ctx.count("renamed_" + kind)
+                if not feed_back(ctx, srv, texts, changes, opened, "file://%s/main.oal" % root,
+                                 dict(where, old=old, new=new, edited={names[u]: t for u, t in edited.items()})):
+                    return
         ctx.count("workspaces")
         if len(files) > 1:
             ctx.count("nontrivial")
